@@ -374,6 +374,7 @@ fn chain_subject() -> Subject {
 pub fn cc_subjects() -> Vec<Subject> {
     let mut v: Vec<Subject> = Vec::new();
     v.push(chain_subject());
+    v.push(cursor_subject());
     v.push(cc_subject::<OrderedSetAddress>("deserial_set_no_length<Address>", true, |r| {
         OrderedSetAddress(g_vec(r, g_clashing_address).into_iter().collect())
     }));
@@ -420,10 +421,12 @@ pub fn cc_subjects() -> Vec<Subject> {
     v.push(cc_subject::<cc::ExchangeRate>("ExchangeRate", false, |r| {
         cc::ExchangeRate::new_unchecked(g_u64(r).max(1), g_u64(r).max(1))
     }));
+    v.last_mut().unwrap().crafted = Some(Box::new(|seed| crafted_rates(seed, 2)));
     v.push(cc_subject::<cc::ExchangeRates>("ExchangeRates", false, |r| cc::ExchangeRates {
         euro_per_energy:    cc::ExchangeRate::new_unchecked(g_u64(r).max(1), g_u64(r).max(1)),
         micro_ccd_per_euro: cc::ExchangeRate::new_unchecked(g_u64(r).max(1), g_u64(r).max(1)),
     }));
+    v.last_mut().unwrap().crafted = Some(Box::new(|seed| crafted_rates(seed, 4)));
     v.push(cc_subject::<cc::AccountBalance>("AccountBalance", false, |r| {
         let total = g_u64(r);
         let staked = if total == 0 { 0 } else { r.range(0, total) };
@@ -593,6 +596,171 @@ fn ctx_limit_subject() -> Subject {
             5 => check("BTreeMap<u16,u8>", SizeLength::U8, (0..small as u16).map(|k| (k, 1u8)).collect::<BTreeMap<u16, u8>>(), small, plan),
             _ => check("Vec<u16>", SizeLength::U16, vec![9u16; big], big, plan),
         }
+    });
+    s
+}
+
+/// Exchange rates are ratios of non-zero numbers: `n` little-endian u64, some of them zero.
+fn crafted_rates(seed: u64, n: usize) -> (Vec<u8>, Option<bool>) {
+    let mut rng = Rng::new(seed);
+    let zero_at = if rng.chance(2, 3) { Some(rng.usize_below(n)) } else { None };
+    let mut b = Vec::new();
+    let mut any_zero = false;
+    for i in 0..n {
+        let v = if Some(i) == zero_at || rng.chance(1, 12) { 0 } else { g_u64(&mut rng).max(1) };
+        any_zero |= v == 0;
+        b.extend_from_slice(&v.to_le_bytes());
+    }
+    (b, Some(!any_zero))
+}
+
+/// The seekable in-memory writers and readers against a plain position/vector model: a seeded
+/// sequence of writes, reads and seeks; contents, position and results must agree after each step.
+fn cursor_subject() -> Subject {
+    use cc::{Seek, SeekFrom};
+    #[derive(Debug, Clone, Copy)]
+    enum Sk {
+        Start(u32),
+        End(i32),
+        Current(i32),
+    }
+    impl Sk {
+        fn real(self) -> SeekFrom {
+            match self {
+                Sk::Start(o) => SeekFrom::Start(o),
+                Sk::End(d) => SeekFrom::End(d),
+                Sk::Current(d) => SeekFrom::Current(d),
+            }
+        }
+    }
+    #[derive(Debug)]
+    enum Op {
+        Write(Vec<u8>),
+        Read(usize),
+        Seek(Sk),
+    }
+    fn ops(rng: &mut Rng) -> (Vec<u8>, Vec<Op>) {
+        let n0 = rng.urange(0, 12);
+        let init = rng.bytes(n0);
+        let k = rng.urange(1, 10);
+        let v = (0..k)
+            .map(|_| match rng.below(6) {
+                0 | 1 | 2 => {
+                    let n = rng.urange(0, 6);
+                    Op::Write(rng.bytes(n))
+                }
+                3 => Op::Read(rng.urange(0, 6)),
+                4 => Op::Seek(Sk::Start(rng.below(16) as u32)),
+                _ => {
+                    if rng.coin() {
+                        Op::Seek(Sk::End(-(rng.below(6) as i32) + 1))
+                    } else {
+                        Op::Seek(Sk::Current(rng.below(9) as i32 - 4))
+                    }
+                }
+            })
+            .collect();
+        (init, v)
+    }
+    // reference: vector + position; seek as documented (positions beyond the end are an error)
+    fn model_seek(len: usize, pos: usize, s: &Sk) -> Result<usize, ()> {
+        let target: i64 = match s {
+            Sk::Start(o) => *o as i64,
+            Sk::End(d) => len as i64 + *d as i64,
+            Sk::Current(d) => pos as i64 + *d as i64,
+        };
+        if target < 0 || target as usize > len {
+            Err(())
+        } else {
+            Ok(target as usize)
+        }
+    }
+    let mut s = cc_subject::<Vec<u8>>("Cursor: write / read / seek against a position model", false, |r| {
+        let n = r.urange(0, 4);
+        r.bytes(n)
+    });
+    s.typed = Box::new(|seed, _plan| {
+        let mut rng = Rng::new(seed);
+        let (init, ops) = ops(&mut rng);
+        // (a) Cursor<&mut Vec<u8>>: writes inside overwrite, writes at the end extend
+        let mut real = init.clone();
+        let mut model = init.clone();
+        let mut pos = 0usize;
+        let mut cur = cc::Cursor::new(&mut real);
+        for (i, op) in ops.iter().enumerate() {
+            match op {
+                Op::Write(b) => {
+                    let r = cc::Write::write(&mut cur, b);
+                    let end = pos + b.len();
+                    if model.len() < end {
+                        model.resize(end, 0);
+                    }
+                    model[pos..end].copy_from_slice(b);
+                    pos = end;
+                    if r != Ok(b.len()) {
+                        return Err(format!("step {}: write of {} bytes into Cursor<&mut Vec<u8>> returned {:?}", i, b.len(), r));
+                    }
+                }
+                Op::Read(_) => {}
+                Op::Seek(sk) => {
+                    let want = model_seek(model.len(), pos, sk);
+                    let got = cur.seek(sk.real()).map(|x| x as usize);
+                    if let Ok(p) = want {
+                        pos = p;
+                    }
+                    if got.map_err(|_| ()) != want {
+                        return Err(format!("step {}: seek {:?} on Cursor<&mut Vec<u8>> (len {}) gives {:?}, expected {:?}", i, sk, model.len(), got, want));
+                    }
+                }
+            }
+            if cur.offset != pos {
+                return Err(format!("step {} {:?}: Cursor<&mut Vec<u8>> position is {}, expected {}", i, op, cur.offset, pos));
+            }
+            if *cur.data != model {
+                return Err(format!("step {} {:?}: Cursor<&mut Vec<u8>> holds {:?}, expected {:?}", i, op, cur.data, model));
+            }
+        }
+        // (b) Cursor<Vec<u8>> as a reader with seeks
+        let data = init.clone();
+        let mut cur = cc::Cursor::new(data.clone());
+        let mut pos = 0usize;
+        for (i, op) in ops.iter().enumerate() {
+            match op {
+                Op::Read(n) => {
+                    let mut buf = vec![0u8; *n];
+                    let got = cc::Read::read(&mut cur, &mut buf).map_err(|_| ());
+                    let k = (*n).min(data.len() - pos);
+                    if got != Ok(k) || buf[..k] != data[pos..pos + k] {
+                        return Err(format!("step {}: read of {} at {} from Cursor<Vec<u8>> of {} bytes gives {:?} {:?}", i, n, pos, data.len(), got, &buf[..k.min(buf.len())]));
+                    }
+                    pos += k;
+                }
+                Op::Write(b) => {
+                    // a read of that many bytes instead (keeps the two walks in step)
+                    let mut buf = vec![0u8; b.len()];
+                    let got = cc::Read::read(&mut cur, &mut buf).map_err(|_| ());
+                    let k = b.len().min(data.len() - pos);
+                    if got != Ok(k) || buf[..k] != data[pos..pos + k] {
+                        return Err(format!("step {}: read of {} at {} from Cursor<Vec<u8>> gives {:?}", i, b.len(), pos, got));
+                    }
+                    pos += k;
+                }
+                Op::Seek(sk) => {
+                    let want = model_seek(data.len(), pos, sk);
+                    let got = cur.seek(sk.real()).map(|x| x as usize).map_err(|_| ());
+                    if let Ok(p) = want {
+                        pos = p;
+                    }
+                    if got != want {
+                        return Err(format!("step {}: seek {:?} on Cursor<Vec<u8>> (len {}) gives {:?}, expected {:?}", i, sk, data.len(), got, want));
+                    }
+                }
+            }
+            if cur.offset != pos {
+                return Err(format!("step {} {:?}: Cursor<Vec<u8>> position is {}, expected {}", i, op, cur.offset, pos));
+            }
+        }
+        Ok(())
     });
     s
 }
